@@ -42,13 +42,14 @@ Definition uniform (n : nat) : vec Q := fun _ => 1 / inject_Z (Z.of_nat n).     
 
 (* ---------------- subgraph centrality ---------------- *)
 Definition zeroQ : mat Q := fun _ _ => 0.
-(* polynomial with coefficient list p (lowest degree first), Horner form, of a number / of a matrix *)
+(* polynomial with coefficient list p (lowest degree first), Horner form, of a number / of a matrix
+   (Qred only normalises the representation of the rational: Qred q == q) *)
 Fixpoint peval (p : list Q) (x : Q) : Q :=
-  match p with [] => 0 | c :: p' => c + x * peval p' x end.
+  match p with [] => 0 | c :: p' => Qred (c + x * peval p' x) end.
 Fixpoint pevalM (n : nat) (p : list Q) (A : mat Q) : mat Q :=
   match p with
   | [] => zeroQ
-  | c :: p' => let R := tab 0 n n (pevalM n p' A) in fun i j => c * delta i j + mmulQ n A R i j
+  | c :: p' => let R := tab 0 n n (fun i j => Qred (pevalM n p' A i j)) in fun i j => c * delta i j + mmulQ n A R i j
   end.
 (* the code's formula with exp replaced by the polynomial p *)
 Definition spectral_diag (n : nat) (V : mat Q) (lam : vec Q) (p : list Q) : vec Q :=
